@@ -36,7 +36,7 @@ def _models(events):
         if x is None or y is None:
             return SX.TOP
         lo, hi = ex.split(x * y)
-        events.append(("wrap", x * y, lo, hi))
+        st.events.append(("wrap", x * y, lo, hi))
         return lo
     wm.on(SX.by(None, "wrapping_mul"), wrapping_mul)
 
@@ -46,7 +46,7 @@ def _models(events):
             return SX.TOP
         x = vs[0] + vs[1] * vs[2] + vs[3]
         lo, hi = ex.split(x)
-        events.append(("discard", x, lo, hi))
+        st.events.append(("discard", x, lo, hi))
         ex.write_ref(a[3], hi)
         return SX.Obj(adt="()")
     wm.on(SX.by(None, "mac_discard"), mac_discard)
@@ -58,7 +58,7 @@ def _models(events):
             return NotImplemented
         x = vs[0] + vs[1] * vs[2]
         lo, hi = ex.split(x)
-        events.append(("mac", x, lo, hi, vs[1]))
+        st.events.append(("mac", x, lo, hi, vs[1]))
         ex.write_ref(a[3], hi)
         return lo
     wm.on(SX.by(None, "mac"), mac)
@@ -70,7 +70,7 @@ def _models(events):
             return NotImplemented
         x = vs[0] + vs[1] + vs[2]
         lo, hi = ex.split(x)
-        events.append(("adc", x, lo, hi))
+        st.events.append(("adc", x, lo, hi))
         ex.write_ref(a[0], lo)
         return hi
     wm.on(SX.by(None, "adc"), adc)
@@ -85,10 +85,12 @@ def _models(events):
                 c = Q.const(int(v))
             else:
                 c = SX.q_of(v)
-        events.append(("subtract", c))
+        st.events.append(("subtract", c))
         return SX.Obj(adt="()")
     wm.on(SX.by(None, "__subtract_modulus"), subtract)
     wm.on(SX.by(None, "__subtract_modulus_with_carry"), subtract)
+    wm.on(SX.by(None, "subtract_modulus"), subtract)
+    wm.on(SX.by(None, "subtract_modulus_with_carry"), subtract)
 
     def index(ex, st, fr, t, a):
         # scratch[N..] : sub-array
@@ -100,6 +102,38 @@ def _models(events):
     wm.on(SX.by("core::ops::index::Index", "index"), index)
     wm.on(SX.by(None, "try_into"), lambda ex, st, fr, t, a: SX.some(ex.deref(a[0])))
 
+    def copy_from_slice(ex, st, fr, t, a):
+        import os
+        src = ex.deref(a[1])
+        if os.environ.get("VERIF_DEBUG"):
+            print("copy_from_slice", type(a[0]).__name__, type(src).__name__, getattr(src, "adt", None), str(src)[:80])
+        if isinstance(src, SX.Obj) and src.adt == "array" and isinstance(a[0], SX.Ref):
+            import copy as _copy
+            ex.write_ref(a[0], _copy.deepcopy(src))
+            return SX.Obj(adt="()")
+        return NotImplemented
+    wm.on(SX.by(None, "copy_from_slice"), copy_from_slice)
+
+    def contains(ex, st, fr, t, a):
+        import os
+        r, x = ex.deref(a[0]), ex.deref(a[1])
+        if os.environ.get("VERIF_DEBUG"):
+            print("contains", str(r)[:80], getattr(r, "adt", None), getattr(r, "fields", None), x, t["f"].get("path"))
+        if not isinstance(r, SX.Obj) and isinstance(x, int):
+            # `(2..=6).contains(&N)`: the range is a promoted constant; read its two literals off the operand
+            from arklib import dataflow as DF
+            kc = DF.direct_const(fr.fn, t["args"][0]) or {}
+            lits = [int(d_[4:]) for d_ in (kc.get("pdefs") or []) if d_.startswith("lit:")]
+            if len(lits) >= 2:
+                incl = "RangeInclusive" in (t["f"].get("path") or "")
+                return lits[0] <= x < lits[1] + (1 if incl else 0)
+            return NotImplemented
+        if isinstance(r, SX.Obj) and isinstance(x, int) and all(isinstance(r.fields.get(i), int) for i in (0, 1)):
+            hi_ = r.fields[1] + (1 if "Inclusive" in (r.adt or "") else 0)
+            return r.fields[0] <= x < hi_
+        return NotImplemented
+    wm.on(SX.by(None, "contains"), contains)
+
     def unwrap(ex, st, fr, t, a):
         o = ex.deref(a[0])
         if isinstance(o, SX.Obj) and o.variant in ("Some", "Ok") and 0 in o.fields:
@@ -110,11 +144,15 @@ def _models(events):
     return wm
 
 
-def prove(facts, fn, P, INV, N, square=False):
-    """-> (verdict, message): verdict in 'ok' | 'bad' | 'undecided'"""
-    from rules.c15 import WordEngine
+def prove(facts, fn, P, INV, N, square=False, cv=None):
+    """-> (verdict, message): verdict in 'ok' | 'bad' | 'undecided'.  cv: constant resolver for generic (trait-default)
+    bodies, which are run with the configuration's constants and a concrete limb count"""
+    from rules.c15 import WordEngine, _loop_models
     events = []
-    ex = WordEngine(facts, fn.unit, _models(events), env={"N": N}, max_paths=10, max_depth=6, inline_limit=200)
+    wm = _models(events)
+    if cv is not None:
+        wm = _loop_models(wm)
+    ex = WordEngine(facts, fn.unit, wm, env={"N": N}, max_paths=10, max_depth=8, inline_limit=(2000 if cv is not None else 200), max_visits=(4 * N * N + 16 if cv is not None else 2), const_value=cv)
 
     def big(prefix):
         return SX.Obj(adt="BigInt", fields={0: SX.Obj(adt="array", fields={i: Q.var("%s%d" % (prefix, i)) for i in range(N)})})
@@ -125,10 +163,23 @@ def prove(facts, fn, P, INV, N, square=False):
         paths = [p for p in ex.run(fn, args) if "panic" not in p.flags]
     except Exception as e:
         return "undecided", "symbolic evaluation failed: %s" % str(e)[:80]
-    if len(paths) != 1 or paths[0].flags:
-        return "undecided", "the body is not one straight-line word computation (%d paths, flags %s)" % (len(paths), sorted(paths[0].flags)[:4] if paths else [])
+    # a test that cannot be evaluated but whose arms rejoin (`(2..=6).contains(&N) && cfg!(asm..)` with cfg! false) forks
+    # the evaluation; every resulting path must satisfy the identity
+    benign = {"top-branch", "unmodelled:contains"}
+    if not paths or any(p_.flags - benign for p_ in paths) or len(paths) > 4:
+        return "undecided", "the body is not a straight-line word computation (%d paths, flags %s)" % (len(paths), sorted(set().union(*[p_.flags for p_ in paths]))[:4] if paths else [])
+    verdicts = [_prove_path(ex, p_, ca, P, INV, N, square) for p_ in paths]
+    for v_ in verdicts:
+        if v_[0] != "ok":
+            return v_
+    return verdicts[0]
+
+
+def _prove_path(ex, path, ca, P, INV, N, square):
+    events = [e for e in path.st.events if e and e[0] in ("wrap", "discard", "mac", "adc", "subtract")]
     try:
-        out = ex.deref(ex.deref(ca.v).fields[0])
+        cell_v = path.args.cell(1).v if getattr(path, "args", None) is not None else ca.v
+        out = ex.deref(ex.deref(cell_v).fields[0])
         arr = ex.deref(out.fields[0])
         limbs = [SX.q_of(ex.deref(arr.fields[i])) for i in range(N)]
     except Exception as e:
@@ -140,6 +191,16 @@ def prove(facts, fn, P, INV, N, square=False):
     # dropped low words: explicit mac_discard, or a `mac(r0, k, p0, ..)` with k one of the Montgomery factors (its result
     # is not used by the generated code; if it were, the identity below would fail)
     discs = [e for e in events if e[0] == "discard" or (e[0] == "mac" and e[4].is_poly() and len(e[4].n.vars()) == 1 and next(iter(e[4].n.vars())) in knames and e[4].equals(Q.var(next(iter(e[4].n.vars())))))]
+    if not discs:
+        # const-fn form: the step `mac!(r0, k, p0, &mut carry)` is inline arithmetic; its decomposition is the first one
+        # whose value is r0 + k*p0 for the Montgomery factor k of that step
+        p0_ = P % W
+        for we in wraps:
+            kn = next(iter(we[2].n.vars()))
+            for (x, lo, hi) in ex.decomp:
+                if x.is_poly() and x.n.t.get(((kn, 1),)) == p0_ and not any(kn in [v for v, _e in mono] for mono in x.n.t if mono != ((kn, 1),)):
+                    discs.append(("discard", x, lo, hi))
+                    break
     subs = [e for e in events if e[0] == "subtract"]
     adcs = [e for e in events if e[0] == "adc"]
     if len(wraps) != N or len(discs) != N or len(subs) != 1:
@@ -165,7 +226,15 @@ def prove(facts, fn, P, INV, N, square=False):
             continue
         if ln in d.vars():
             d = d.subst(ln, (x - Q.const(ex.base_of(lo)) * hi).n)
-    if square and not d.is_zero() and d.is_poly():
+    spare = P.bit_length() < 64 * N
+    if subs[0][1] is None and not spare and N > 0:
+        # without a spare bit (a*b + M*p)/W^N can reach W^N: the carry out of the top word must reach the reduction
+        carry_needed = True
+    else:
+        carry_needed = False
+    if carry_needed and not d.is_zero():
+        return "bad", "the modulus has no spare bit but the final reduction is not given the carry out of the top word (residual %s): sums that reach 2^(64N) are reduced as if the carry were 0" % str(d)[:100]
+    if (square or subs[0][1] is None) and not d.is_zero() and d.is_poly():
         # the 2N-word square of an N-word value has no carry out of word 2N-1: carry symbols that would be worth
         # W^(2N) are zero by that bound (a^2 < W^(2N)); they are not stored by the code
         from arklib.poly import Poly
@@ -180,7 +249,7 @@ def prove(facts, fn, P, INV, N, square=False):
                 rest[mono] = c
         if not rest:
             d = Q.const(0)
-            note = note + "; %d carry symbol(s) out of word 2N-1 of the square taken as 0 (a^2 < W^(2N))" % dropped
+            note = note + "; %d carry symbol(s) worth W^(2N) taken as 0 (%s)" % (dropped, "a^2 < W^(2N)" if square else "spare bit: (a*b + M*p)/W^N < 2p < W^N")
     if not d.is_zero():
         return "bad", "OUT*W^N - (A*B + M*P - D) reduces to %s, not 0: the limb schedule does not compute a*b*R^-1 mod p" % str(d)[:140]
     p0 = P % W
@@ -192,6 +261,41 @@ def prove(facts, fn, P, INV, N, square=False):
         if not (xw - r0 * Q.const(INV)).is_zero():
             return "bad", "step %d: k is the low word of %s, but the dropped word is the low word of %s: k != r0*INV for the r0 that is reduced" % (i, str(xw)[:60], str(xd)[:60])
     return "ok", "OUT*W^N = A*B + M*P - D identically (%d word decompositions); each dropped word D_i is 0 (k_i = r0_i*INV mod W, INV*p0 = -1 mod W)%s" % (len(ex.decomp), note)
+
+
+def check_cios_default(rule, facts):
+    """the trait-default bodies (generic in N, loops expanded by unroll_for_loops) are what hand-written configurations
+    run: they are evaluated with each such configuration's constants (MODULUS, INV, the no-carry / spare-bit flags) and
+    its limb count, and must satisfy the same identity"""
+    MONT = "ark_ff::fields::models::fp::montgomery_backend::MontConfig"
+    defaults = {f.name: f for f in facts.fns(unit="ws", crate="ark_ff") if f.kind != "Closure" and f.id in (MONT + "::mul_assign", MONT + "::square_in_place")}
+    table = {}
+    for c in facts.crates:
+        for k in c.consts:
+            if k.get("owner") and k.get("trait", "").endswith("MontConfig"):
+                table.setdefault((c.unit, k["owner"]), {})[k["name"]] = k.get("val")
+    overriding = {(f.unit, (f.impl or {}).get("self")) for f in facts.fns() if f.name == "mul_assign" and (f.trait_impl or "").endswith("MontConfig") and not f.default_of}
+    for (unit, owner), cs in sorted(table.items()):
+        if (unit, owner) in overriding or not isinstance(cs.get("MODULUS"), dict) or not isinstance(cs.get("INV"), int):
+            continue
+        limbs = cs["MODULUS"]["0"]
+        N = len(limbs)
+        P = sum(x << (64 * i) for i, x in enumerate(limbs))
+
+        def cv(d, k, ctx=(), cs=cs, limbs=limbs):
+            nm = d.rsplit("::", 1)[-1]
+            if nm == "MODULUS":
+                return SX.Obj(adt="BigInt", fields={0: SX.Obj(adt="array", fields={i: x for i, x in enumerate(limbs)})})
+            v = cs.get(nm)
+            if isinstance(v, (bool, int)):
+                return v
+            return None
+        for name, fn in sorted(defaults.items()):
+            if name == "square_in_place" and N == 1:
+                continue
+            key = "%s|%s|%s(default)" % (unit, owner, name)
+            verdict, msg = prove(facts, fn, P, cs["INV"], N, square=(name == "square_in_place"), cv=cv)
+            (rule.ok if verdict == "ok" else rule.bad if verdict == "bad" else rule.undecided)(key, msg, fn.loc)
 
 
 def check_cios(res, facts, units):
@@ -225,3 +329,4 @@ def check_cios(res, facts, units):
                 continue        # delegates to mul_assign (N = 1) -- nothing of its own
             verdict, msg = prove(facts, fn, P, inv, N, square=(fn.name == "square_in_place"))
             (rule.ok if verdict == "ok" else rule.bad if verdict == "bad" else rule.undecided)(key, msg, fn.loc)
+    check_cios_default(rule, facts)
